@@ -40,7 +40,8 @@ Definition piece_ok (path : str) (names : list (str * nat)) (s : st) (n : node) 
   | NStarstar k suffix =>
       exists g, lookup (star_name k) names = Some g /\
         ((cap_text path s g = None /\ piece = []) \/
-         (cap_text path s g = Some piece /\ exists b, b <> [] /\ piece = b ++ suffix))
+         (cap_text path s g = Some piece /\
+          exists b, b <> [] /\ has_char nl b = false /\ piece = b ++ suffix))
   end.
 
 Definition names_ext (n1 n2 : list (str * nat)) : Prop :=
@@ -155,15 +156,19 @@ Proof.
   - intros n g v t' Hl Hle Hv. unfold cap_text. rewrite Hc. eapply I3; eauto.
 Qed.
 
-Lemma not_slash_chars : forall t, Forall (fun c => chr_ok true [(c_slash, c_slash)] c = true) t ->
-  has_char c_slash t = false.
+Lemma not_char_has : forall x t, Forall (fun c => chr_ok true [(x, x)] c = true) t ->
+  has_char x t = false.
 Proof.
   induction t as [|c t IH]; intros H; simpl; auto. inversion H; subst.
   rewrite IH by auto. rewrite orb_false_r.
   unfold chr_ok, in_ranges in H2. simpl in H2. rewrite orb_false_r in H2.
-  destruct (N.eqb c_slash c) eqn:E; auto. apply N.eqb_eq in E. subst c.
-  unfold c_slash in H2. simpl in H2. discriminate.
+  destruct (N.eqb x c) eqn:E; auto. apply N.eqb_eq in E. subst c.
+  rewrite N.leb_refl in H2. simpl in H2. discriminate.
 Qed.
+
+Lemma not_slash_chars : forall t, Forall (fun c => chr_ok true [(c_slash, c_slash)] c = true) t ->
+  has_char c_slash t = false.
+Proof. apply not_char_has. Qed.
 
 Ltac inv1 H := inversion H; subst; clear H.
 Ltac inv_sl := repeat match goal with
@@ -262,7 +267,7 @@ Proof.
       inversion Hb; subst. clear Hb. unfold rx_any_plus in *.
       match goal with H : sem (Rep _ _ _ _) _ _ |- _ => inv1 H end.
       match goal with H : iter _ ?n _ _, Hn : 1 <= ?n |- _ =>
-        apply iter_chr in H; destruct H as [t [Hc [Hlen [_ Hcaps]]]]; rename Hn into Hn1 end.
+        apply iter_chr in H; destruct H as [t [Hc [Hlen [Hnl Hcaps]]]]; rename Hn into Hn1 end.
       match goal with H : sem_list (map chr_lit suffix) _ _ |- _ =>
         apply sem_lits in H; destruct H as [Hc2 Hcaps2] end.
       pose proof (consumed_trans _ _ _ _ _ Hc Hc2) as Hc3.
@@ -273,7 +278,8 @@ Proof.
       { intros v t' Hv. rewrite El in Hv. discriminate. }
       exists (t ++ suffix). unfold step_ok. repeat (split; [assumption|]).
       simpl. exists g. split; [auto|]. right. split; [auto|].
-      exists t. split; [|reflexivity]. destruct t; [simpl in Hlen; lia|discriminate].
+      exists t. split; [destruct t; [simpl in Hlen; lia|discriminate]|].
+      split; [apply (not_char_has nl); exact Hnl|reflexivity].
     + (* it did not *)
       match goal with H : sem Eps _ _ |- _ => inv1 H end.
       unfold open_group in Ho. inversion Ho; subst g c1. clear Ho. simpl in Herr.
@@ -346,7 +352,8 @@ Definition dpiece_ok (d : list (str * option str)) (n : node) (piece : str) : Pr
   | NStar k => lookup (star_name k) d = Some (Some piece) /\ has_char c_slash piece = false
   | NStarstar k suffix =>
       (lookup (star_name k) d = Some None /\ piece = []) \/
-      (lookup (star_name k) d = Some (Some piece) /\ exists b, b <> [] /\ piece = b ++ suffix)
+      (lookup (star_name k) d = Some (Some piece) /\
+       exists b, b <> [] /\ has_char nl b = false /\ piece = b ++ suffix)
   end.
 
 Lemma lookup_groupdict : forall path names x name,
